@@ -83,9 +83,20 @@ class Ctx:
         return any(t in bs for t in traits)
 
     def sponge_cut(self, g):
-        """edge filter: absorbing into the sponge does not taint it (challenges held fixed)."""
+        """edge filter "challenges held fixed": absorbing into the sponge does not taint it, and hashing into a
+        `digest::Digest` (the hand-rolled random oracle of the IPA scheme) does not taint the digest."""
         sp = (T.SPONGE_TRAIT,)
-        return lambda a, b, k: self.has_bound(g, b, sp) and not self.has_bound(g, a, sp)
+        f = self.facts
+
+        def cut(n, e):
+            if self.has_bound(g, e.dst, sp) and not self.has_bound(g, n, sp):
+                return True
+            if e.site is not None and e.op in ("foreign", "shape"):
+                t = f.bodies[e.site[0]].blocks[e.site[1]]["term"]
+                if t.get("callee_trait") in T.ORACLE_TRAITS:
+                    return True
+            return False
+        return cut
 
 
 class Report:
